@@ -312,4 +312,13 @@ theorem rounds_c14 : ∀ (rs : List Round) (a : A) (s : State), Inv cfg a s → 
 
 end pre
 
+/-- **the properties whose Spec clauses are proved to hold on every run of the model** by the `ManagerSim*` family: the six
+    the simulation chain is stated over (`provenCore`) and C14, proved on top of it -/
+def proven : List String := provenCore ++ ["C14"]
+
+/-- the tags of all the other clauses (C18: the `ManagerStats*` family) -/
+def others : List String := ["C18"]
+
+theorem proven_eq : proven = ["C19", "C01", "C06", "C03", "C07", "C05", "C14"] := rfl
+
 end Pyrtma.Mgr
